@@ -45,6 +45,7 @@ def parseAction (s : String) : Option Action :=
   | ["csl", n] => do pure (.chSlice (← n.toNat?))
   | ["TL"] => some .tlNext
   | ["CTL", c] => do pure (.chTlNext (← c.toNat?))
+  | ["X", k, ids] => do pure (.extra (← k.toNat?) (← (ids.splitOn ",").mapM String.toNat?))
   | _ => none
 
 def showInts (l : List Int) : String := ",".intercalate (l.map toString)
@@ -58,6 +59,7 @@ def showEvent : Event → String
   | .storeChan c v => s!"S:c{c}={v}"
   | .apiDiff p q => s!"A:diff({p},{q})"
   | .apiChDiff c p => s!"A:chdiff{c}({p})"
+  | .apiRestore p q => s!"A:restore({p},{q})"
   | .tooLong => "L"
   | .chTooLong c => s!"L:c{c}"
 
@@ -84,6 +86,10 @@ def parseEvent (s : String) : Option Event :=
   else if let some r := dropPrefix s "A:diff(" then
     match (r.dropEnd 1).toString.splitOn "," with
     | [p, q] => do pure (.apiDiff (← p.toInt?) (← q.toInt?))
+    | _ => none
+  else if let some r := dropPrefix s "A:restore(" then
+    match (r.dropEnd 1).toString.splitOn "," with
+    | [p, q] => do pure (.apiRestore (← p.toInt?) (← q.toInt?))
     | _ => none
   else if let some r := dropPrefix s "A:chdiff" then
     match (r.dropEnd 1).toString.splitOn "(" with
